@@ -18,8 +18,8 @@ from .. import common, constrain_corr as cc, gen, scale_corr as sc
 from ..common import Result, Violation, f2h
 
 META = dict(
-    level='Lean theorems, for every c > 0 over any linear ordered field: discrete methods — every Poisson parameter, every prior-cdf argument, span fractions and maximization arguments are unchanged and the time grid scales, hence posterior means x c and variances x c^2 for ANY inside/outside/maximization recursion reading only that view, and the full statement for the model of a whole inside_outside run (grid, tables, recursion, mean_var, constraint); `_constrain_ages` equivariant (same exits, same forced assignments); mutational_area / mutational_timescale / piecewise rescale loop equivariant; EP edge update, full pass, propagate_prior (the penalty is a rate) and node moments equivariant GIVEN equivariant projection kernels (hypothesis); the translator-generated _damp/_rescale are proved equal to the hand models and scale-free. Partial: the projection kernels (approx.py/hypergeo.py) are a hypothesis here, piecewise_scale_posterior and the inside/outside recursions are not modelled (they are arbitrary functions of proved-invariant arguments); floating point by tolerance only. Models tied to the code bit-for-bit at Float on base and rescaled inputs; date() checked metamorphically over 16 scale factors.',
-    note='Lean kernel + {propext, Classical.choice, Quot.sound}; exact arithmetic; sampled correspondence of the models; scipy pmf/cdf as uninterpreted functions; projections assumed equivariant',
+    level='Lean theorems, for every c > 0 over any linear ordered field: discrete methods — every Poisson parameter, every prior-cdf argument, span fractions and maximization arguments are unchanged and the time grid scales, hence posterior means x c and variances x c^2 for ANY inside/outside/maximization recursion reading only that view, and the full statement for the model of a whole inside_outside run (grid, tables, recursion, mean_var, constraint); `_constrain_ages` equivariant (same exits, same forced assignments); mutational_area / mutational_timescale / piecewise rescale loop equivariant; EP edge update, full pass, propagate_prior (the penalty is a rate) and node moments equivariant for any equivariant projection kernels, and (C06_vgamma) for the translator-generated projection kernels of approx.py/hypergeo.py, whose equivariance is proved by the kernels cluster for every interpretation of exp/log/sqrt/lgamma, with no remaining hypothesis on the projections; the translator-generated _damp/_rescale are proved equal to the hand models and scale-free. Partial: piecewise_scale_posterior, mutation posteriors and the inside/outside recursions are not modelled (they are arbitrary functions of proved-invariant arguments); floating point by tolerance only. Models tied to the code bit-for-bit at Float on base and rescaled inputs; date() checked metamorphically over 16 scale factors.',
+    note='Lean kernel + {propext, Classical.choice, Quot.sound}; exact arithmetic; sampled correspondence of the models; scipy pmf/cdf as uninterpreted functions; isFinite assumed value-independent in the kernel theorems',
     technique='degree discipline: equivariance theorems by induction over edges/iterations + bit-exact model/code correspondence + metamorphic oracle',
     ref='§3 C06',
 )
@@ -29,7 +29,7 @@ LEAN_BUILD = ["TsdateVerif.Model.Proto", "TsdateVerif.Model.Scale", "TsdateVerif
 ASSUMPTIONS = [
     "theorems are about exact arithmetic over an ordered field; floating-point agreement is checked with tolerances (discrete 1e-9, variational 1e-6 means / 1e-5 variances)",
     "the Poisson pmf, prior cdfs and the inside/outside/maximization recursions are arbitrary functions of arguments proved unchanged; that the real recursions read nothing else is checked by the oracle only",
-    "EP projection kernels are assumed scale-equivariant (hypothesis of the EP theorems)",
+    "EP projection kernels: equivariance imported from Proofs/KernelsScaleProj.lean (kernels cluster) for the translated kernels; np.isfinite is assumed value-independent there (no overflow)",
     "absolute-unit defaults (min_branch_length=1e-8, eps=1e-8) are scaled explicitly, as the statement says",
 ]
 
